@@ -9,6 +9,7 @@ import (
 	"regexp"
 	"sort"
 	"strings"
+	"unicode/utf8"
 
 	"golang.org/x/tools/go/packages"
 	"golang.org/x/tools/go/ssa"
@@ -182,9 +183,7 @@ func summarizeLabels(m map[string]string, max int) string {
 	ls := labelList(m)
 	var out []string
 	for _, l := range ls {
-		if len(l) > 160 {
-			l = l[:160] + "…"
-		}
+		l = trunc(l, 160)
 		out = append(out, l)
 		if len(out) >= max {
 			out = append(out, fmt.Sprintf("… (%d more)", len(ls)-max))
@@ -425,4 +424,15 @@ func loopBlocks(header *ssa.BasicBlock) map[int]bool {
 		}
 	}
 	return in
+}
+
+// trunc cuts a string at a rune boundary.
+func trunc(s string, n int) string {
+	if len(s) <= n {
+		return s
+	}
+	for n > 0 && !utf8.RuneStart(s[n]) {
+		n--
+	}
+	return s[:n] + "…"
 }
